@@ -89,6 +89,15 @@ def impl_settle(case):
         out["rake_exc"] = type(e).__name__
     if not case.get("twice"):
         pot = Pot(n, f, case["cap"], balances())      # otherwise: settle the very pot that was queried
+    if case.get("dcopy"):
+        # a deep copy of the pot ("what if" settlement): the original is settled first (which drains it), then the copy
+        import copy
+        pc = copy.deepcopy(pot)
+        try:
+            pot.settle_showdown([list(t) for t in case["tiers"]], case["rake_pot"])
+        except Exception:
+            pass
+        pot = pc
     try:
         pay, r = pot.settle_showdown([list(t) for t in case["tiers"]], case["rake_pot"])
         out["pay"] = [pay[p] for p in range(n)]
@@ -168,6 +177,8 @@ class C14(Prop):
             c["korder"] = rng.randrange(1, n + 1)
         if rng.random() < 0.3:
             c["twice"] = True
+        if rng.random() < 0.25:
+            c["dcopy"] = True
         return c
 
     def generate(self, rng, tier, shard):
@@ -325,6 +336,8 @@ class C02(Prop):
             c["korder"] = rng.randrange(1, n + 1)
         if rng.random() < 0.3:
             c["twice"] = True
+        if rng.random() < 0.25:
+            c["dcopy"] = True
         return c
 
     def generate(self, rng, tier, shard):
